@@ -7,6 +7,7 @@ import (
 	"bytes"
 	"fmt"
 	"math/big"
+	"strings"
 
 	"github.com/gocql/gocql"
 
@@ -738,6 +739,9 @@ func (rn *Runner) DecodeCase(kind string, pv int, t *Ty, data []byte, g *GTy, c 
 	term := fmt.Sprintf("CUnmarshal %d %s %s %s %s", pv, t.Coq(), OptBytesCoq(data), g.Coq(), UResCoq(res, cls))
 	idx := o.Case(kind, cls == ClsOk && len(data) > 0, term)
 	rn.retain(idx, reread, res)
+	if cls == ClsOk {
+		rn.DestinationState(idx, pv, t, data, g, res)
+	}
 	rn.Stat[fmt.Sprintf("unmarshal-class-%d", cls)]++
 	if !monitor {
 		return res, cls
@@ -961,6 +965,9 @@ func (rn *Runner) RoundTrip(kind string, pv int, t *Ty, v *Val, targets []*GTy) 
 		term := fmt.Sprintf("CUnmarshal %d %s %s %s %s", pv, t.Coq(), OptBytesCoq(out), g.Coq(), UResCoq(res, dcls))
 		idx := o.Case(kind+"-unmarshal", dcls == ClsOk && len(out) > 0, term)
 		rn.retain(idx, reread, res)
+		if dcls == ClsOk {
+			rn.DestinationState(idx, pv, t, out, g, res)
+		}
 		rn.Stat[fmt.Sprintf("rt-unmarshal-class-%d", dcls)]++
 		if !ok {
 			rn.Stat["rt-no-denotation"]++
@@ -1147,4 +1154,150 @@ func (rn *Runner) SizeFieldBoundaryCases() {
 			rn.DecodeCase("unmarshal-size-field-boundary", pv, mt, append(dm, 9, 9, 9, 9), TMapOf(TK("str"), TPtr(TK("bytes"))), nil, false, false, "")
 		}
 	}
+}
+
+// destKey: a decoded value up to the one documented dependence on the destination: a non-nil []byte buffer
+// is reused, so an empty value stays an empty non-nil slice instead of nil
+func destKey(v *Val) string {
+	s := v.Coq()
+	s = strings.ReplaceAll(s, "(GBytes false None)", "(GBytes false (Some []))")
+	s = strings.ReplaceAll(s, "(GBytes true None)", "(GBytes true (Some []))")
+	s = strings.ReplaceAll(s, "(GIP [])", "(GIP-empty)")
+	return s
+}
+
+// DestinationState: the decode that just succeeded into a fresh zero destination is repeated into a destination
+// that already holds a different value of the same type (non-nil map with other keys, longer slice, set
+// pointers, struct with every field set, filled array); the result must be the decoded value alone.
+func (rn *Runner) DestinationState(idx int, pv int, t *Ty, data []byte, g *GTy, fresh *Val) {
+	res, cls, msg, _ := DoUnmarshalInto(t.Info(byte(pv)), data, g, t)
+	rn.Stat["destination-state-decodes"]++
+	input := map[string]string{"pv": fmt.Sprint(pv), "type": t.String(), "data": fmt.Sprintf("%x", data), "nil": fmt.Sprint(data == nil), "target": g.Coq()}
+	if cls != ClsOk {
+		rn.O.Violate(idx, "destination-state-changes-outcome", "", fmt.Sprintf("decoding into a zero destination succeeded, into a destination holding an earlier value it failed: %s", msg), input)
+		return
+	}
+	if destKey(res) != destKey(fresh) {
+		fid := ""
+		if udtShortIntoStruct(pv, t, data, g) {
+			fid = FUdtShortStale
+		}
+		rn.O.Violate(idx, "destination-state-leaks-into-result", fid,
+			fmt.Sprintf("decoded into a zero destination: %s; into a destination holding an earlier value: %s", trunc300(fresh.Coq()), trunc300(res.Coq())), input)
+	}
+}
+
+func trunc300(s string) string {
+	if len(s) > 300 {
+		return s[:300] + "..."
+	}
+	return s
+}
+
+const FUdtShortStale = "udt-short-value-keeps-stale-struct-fields"
+
+func stripPtr(g *GTy) *GTy {
+	for g != nil && g.K == "ptr" {
+		g = g.E
+	}
+	return g
+}
+
+// udtShortIntoStruct: walking data with the framing of t, some UDT value read into a struct target has fewer
+// components than the type has fields (the value "stops early"): the trigger of FUdtShortStale.
+func udtShortIntoStruct(pv int, t *Ty, data []byte, g *GTy) bool {
+	g = stripPtr(g)
+	if data == nil || g == nil {
+		return false
+	}
+	rd := func(p []byte, w int) (int, []byte, bool) {
+		if len(p) < w {
+			return 0, nil, false
+		}
+		n := 0
+		for i := 0; i < w; i++ {
+			n = n<<8 | int(p[i])
+		}
+		if w == 4 && n >= 1<<31 {
+			n -= 1 << 32
+		}
+		return n, p[w:], true
+	}
+	w := 2
+	if pv > 2 {
+		w = 4
+	}
+	switch t.K {
+	case "list", "set", "map":
+		n, p, ok := rd(data, w)
+		if !ok || n > 4096 {
+			return false
+		}
+		per := 1
+		if t.K == "map" {
+			per = 2
+		}
+		for i := 0; i < n*per; i++ {
+			m, q, ok := rd(p, w)
+			if !ok {
+				return false
+			}
+			p = q
+			if m < 0 {
+				continue
+			}
+			if m > len(p) {
+				return false
+			}
+			et, eg := t.E, g.E
+			if t.K == "map" && i%2 == 0 {
+				et, eg = t.Key, g.Key
+			}
+			if eg != nil && udtShortIntoStruct(pv, et, p[:m], eg) {
+				return true
+			}
+			p = p[m:]
+		}
+	case "tuple", "udt":
+		p := data
+		for i, et := range t.Es {
+			if len(p) < 4 {
+				// the value stops here
+				return t.K == "udt" && g.K == "struct"
+			}
+			m, q, _ := rd(p, 4)
+			p = q
+			if m < 0 {
+				continue
+			}
+			if m > len(p) {
+				return false
+			}
+			var eg *GTy
+			switch g.K {
+			case "ifaces":
+				if i < len(g.Ts) {
+					eg = g.Ts[i]
+				}
+			case "struct":
+				if t.K == "tuple" && i < len(g.Ts) {
+					eg = g.Ts[i]
+				}
+				if t.K == "udt" {
+					for j := range g.Ts {
+						if g.Tags[j] == t.Names[i] || g.Names[j] == t.Names[i] {
+							eg = g.Ts[j]
+						}
+					}
+				}
+			default:
+				eg = GoTypeOf(et)
+			}
+			if eg != nil && udtShortIntoStruct(pv, et, p[:m], eg) {
+				return true
+			}
+			p = p[m:]
+		}
+	}
+	return false
 }
